@@ -373,6 +373,7 @@ class Ctx:
         self.tier = tier
         self.seed = seed
         self.replay = replay
+        self.replay_obj = None
         self.t0 = time.time()
         prepare_alt()
         self.rundir = os.path.join(RUN, pid)
